@@ -78,6 +78,11 @@ def check_before_store(ctx):
     ok_args = (a == [tgt, f"{merged}[{tgt}]"]) or (isinstance(ln.stmt.target, ast.Tuple) and a == [unparse(e) for e in ln.stmt.target.elts])
     res.check(ok_args, 'R-DOM.check-before-store', f.fq, "the check receives the key and the value that will be stored", fail_detail=f"_check_attribute({', '.join(a)})",
               key='R-DOM.check-before-store|check-args', line=ln.line)
+    gate_nodes = dom.nodes_calling(g, lambda c: unparse(c.func) == 'self._check_attribute')
+    body_starts = [m for m, lab in g.succ[ln] if lab == 'loop']
+    around = any(g.path_avoiding(b, ln, avoid=gate_nodes) is not None for b in body_starts if b not in gate_nodes)
+    res.check(not around, 'R-DOM.check-before-store', f.fq, "inside the loop no path skips the check for an entry (no `continue` / condition around it)",
+              fail_detail="an iteration can complete without calling _check_attribute: the entry is merged unvalidated", key='R-DOM.check-before-store|check-every-entry', line=ln.line)
     res.check(g.path_avoiding(g.entry, st, avoid=[ln]) is None, 'R-DOM.check-before-store', f.fq, "the checking loop dominates the store",
               key='R-DOM.check-before-store|dominates', line=st.line)
     # nothing re-defines / extends the merged dict between the loop and the store
